@@ -1,4 +1,6 @@
-use crate::wal::config::{MAX_FILE_SIZE, now_millis_str, sanitize_namespace, wal_data_dir};
+use crate::wal::config::{
+    MAX_FILE_SIZE, ensure_millis_after, now_millis_str, sanitize_namespace, wal_data_dir,
+};
 use std::cell::RefCell;
 use std::fs;
 use std::path::{Path, PathBuf};
@@ -45,6 +47,17 @@ impl WalPathManager {
 
     pub(crate) fn create_new_file(&self) -> std::io::Result<String> {
         self.ensure_root()?;
+        // Recovery replays segments in name order, so a new segment must never sort before an
+        // existing one - not even when the wall clock went backwards since that one was created
+        if let Ok(dir) = fs::read_dir(&self.root) {
+            let newest = dir
+                .filter_map(|e| e.ok())
+                .filter_map(|e| e.file_name().to_str().and_then(|n| n.parse::<u64>().ok()))
+                .max();
+            if let Some(newest) = newest {
+                ensure_millis_after(newest);
+            }
+        }
         let file_name = now_millis_str();
         let path = self.root.join(&file_name);
         #[cfg(feature = "verif")]
